@@ -79,8 +79,8 @@ Proof.
   - left. exists (length s1). splits; [reflexivity | apply rd_app_new | right; apply (ext_len _ _ _ E)].
 Qed.
 
-Lemma lscal_oop (K : opsemR) dom ran ro F a :
-  o_dom K = dom -> vec_ok K ran ro F ->
+Lemma lscal_oop (K : opsemR) dom ran ro c F a :
+  o_dom K = dom -> vec_ok K ran ro c F ->
   raw_oop_vec (fun x => exec_body junk
       {| i_dom := dom; i_ran := RSp ran; i_pars := [Some a]; i_vecs := []; i_owns := []; i_kids := [K] |}
       (c_oop cls_OperatorLeftScalarMult) x None) dom ran ro (fun d => rscal a (F d)).
@@ -114,31 +114,39 @@ Proof. intros A B. eapply ext_trans; eauto. Qed.
 Lemma ext_trans_fresh (s s1 s2 : storeR) m t :
   ext s s1 m -> ext s1 s2 [t] -> (length s <= t)%nat -> ext s s2 m.
 Proof. intros A B L. eapply ext_trans; [exact A | exact B | auto | intros i Li [<-|[]]; lia]. Qed.
-Lemma ip_finish (s s1 : storeR) y ran d d' :
-  ext s s1 [y] -> wf_store s1 -> rd s1 y = Some (ran, d) -> length d' = fst ran ->
-  rd (upd s1 y (ran, cl d')) y = Some (ran, cl d') /\ ext s (upd s1 y (ran, cl d')) [y] /\
+Lemma ip_finish (s s1 : storeR) y m ran d d' :
+  ext s s1 (y :: m) -> wf_store s1 -> rd s1 y = Some (ran, d) -> length d' = fst ran ->
+  rd (upd s1 y (ran, cl d')) y = Some (ran, cl d') /\ ext s (upd s1 y (ran, cl d')) (y :: m) /\
   wf_store (upd s1 y (ran, cl d')).
 Proof.
   intros E W Ey L. splits.
   - apply rd_upd_same. eapply rd_lt; exact Ey.
-  - eapply ext_trans_same; [exact E | eapply ext_upd; exact Ey].
+  - eapply ext_trans; [exact E | eapply ext_upd; exact Ey | auto | intros i _ [<-|[]]; left; reflexivity].
   - apply wf_upd; [exact W | rewrite cl_length; exact L].
+Qed.
+Lemma fresh_notin_scr c ro (s : storeR) x y : scr_ok c ro s x y -> ~ In (length s) (scr_ids c).
+Proof. intros H I. apply (scr_lt _ _ _ _ _ _ H) in I. lia. Qed.
+Lemma good_ext_scr ro c (s s' : storeR) x y o :
+  good ro s -> scr_ok c ro s x y -> ext s s' (o :: scr_ids c) -> ~ In o (ro_ids ro) -> good ro s'.
+Proof.
+  intros G (_ & _ & _ & D) E No. eapply good_ext; [exact G | exact E |].
+  intros i [<-|I]; [exact No | apply D; exact I].
 Qed.
 Lemma wf_len (s : storeR) i sp d : wf_store s -> rd s i = Some (sp, cl d) -> length d = fst sp.
 Proof. intros W E. rewrite <- (cl_length d). apply (W _ _ _ E). Qed.
 Lemma radd_comm x y : radd y x = radd x y.
 Proof. unfold radd. apply vmap2_swap. intros; lra. Qed.
 
-Lemma lscal_ip (K : opsemR) dom ran ro F a :
-  o_dom K = dom -> vec_ok K ran ro F ->
+Lemma lscal_ip (K : opsemR) dom ran ro c F a :
+  o_dom K = dom -> vec_ok K ran ro c F ->
   raw_ip_vec (fun x o => exec_body junk
       {| i_dom := dom; i_ran := RSp ran; i_pars := [Some a]; i_vecs := []; i_owns := []; i_kids := [K] |}
-      (c_ip cls_OperatorLeftScalarMult) x (Some o)) dom ran ro (fun d => rscal a (F d)).
+      (c_ip cls_OperatorLeftScalarMult) x (Some o)) dom ran ro c (fun d => rscal a (F d)).
 Proof.
-  intros Hd (Hr & Hoop & Hip) s x y dx dy W G Ex Ey Nxy Ny.
+  intros Hd (Hr & Hoop & Hip) s x y dx dy W G Ex Ey Nxy Ny Hs.
   unfold cls_OperatorLeftScalarMult. interp.
   rewrite <- Hd in Ex.
-  destruct (Hip s x y dx dy W G Ex Ey Nxy Ny) as (s1 & Hc & Er & E1 & W1).
+  destruct (Hip s x y dx dy W G Ex Ey Nxy Ny Hs) as (s1 & Hc & Er & E1 & W1).
   rewrite Hc. rewrite (do_iscal_clean _ _ _ _ _ W1 Er).
   eexists _, _. split; [reflexivity|]. split; [left; reflexivity|].
   eapply ip_finish; eauto. rewrite rscal_length. eapply wf_len; eauto.
@@ -153,12 +161,15 @@ Proof.
   - eapply ext_rd; [exact E | exact Ex | intros []].
 Qed.
 
-Definition inst_sum (dom ran : space) (Kl Kr : opsemR) : instR :=
-  {| i_dom := dom; i_ran := RSp ran; i_pars := []; i_vecs := []; i_owns := [None; None]; i_kids := [Kl; Kr] |}.
+Definition inst_sum (dom ran : space) (ot od : option nat) (Kl Kr : opsemR) : instR :=
+  {| i_dom := dom; i_ran := RSp ran; i_pars := []; i_vecs := []; i_owns := [ot; od]; i_kids := [Kl; Kr] |}.
+(* the scratch list contributed by a user-supplied temporary *)
+Definition own_scr (ot : option nat) (sp : space) : scr_t :=
+  match ot with Some t => [(t, sp)] | None => [] end.
 
-Lemma sum_oop (Kl Kr : opsemR) dom ran ro Fl Fr :
-  o_dom Kl = dom -> o_dom Kr = dom -> vec_ok Kl ran ro Fl -> vec_ok Kr ran ro Fr ->
-  raw_oop_vec (fun x => exec_body junk (inst_sum dom ran Kl Kr) (c_oop cls_OperatorSum) x None)
+Lemma sum_oop (Kl Kr : opsemR) dom ran ro cl_ cr ot od Fl Fr :
+  o_dom Kl = dom -> o_dom Kr = dom -> vec_ok Kl ran ro cl_ Fl -> vec_ok Kr ran ro cr Fr ->
+  raw_oop_vec (fun x => exec_body junk (inst_sum dom ran ot od Kl Kr) (c_oop cls_OperatorSum) x None)
     dom ran ro (fun d => radd (Fl d) (Fr d)).
 Proof.
   intros Hdl Hdr (_ & Hol & _) (_ & Hor & _) s x dx W G Ex.
@@ -178,49 +189,101 @@ Proof.
     rewrite (wf_len _ _ _ _ W2 Er1'), (wf_len _ _ _ _ W2 Er2). reflexivity.
 Qed.
 
-Lemma sum_ip (Kl Kr : opsemR) dom ran ro Fl Fr :
-  o_dom Kl = dom -> o_dom Kr = dom -> vec_ok Kl ran ro Fl -> vec_ok Kr ran ro Fr ->
-  raw_ip_vec (fun x o => exec_body junk (inst_sum dom ran Kl Kr) (c_ip cls_OperatorSum) x (Some o))
-    dom ran ro (fun d => radd (Fl d) (Fr d)).
+(* membership helpers for frames *)
+Lemma in_scr_own t sp : In t (scr_ids (own_scr (Some t) sp)).
+Proof. left. reflexivity. Qed.
+Ltac inl := apply in_or_app; left.
+Ltac inr := apply in_or_app; right.
+
+Ltac sum_tail Kl Kr cl_ cr Fl Fr s s1 x y t dx dy dt W1 E01 Et1 Ntx Nty Nt Ntl Ntr Hfr G Ex Ey Hs_l Hs_r Hdl Hdr Hil Hir Nxy Ny :=
+  let G1 := fresh "G1" in let Ex1 := fresh "Ex1" in let Ey1 := fresh "Ey1" in let Hs_l1 := fresh "Hs_l1" in
+  let s2 := fresh "s2" in let Hc1 := fresh "Hc1" in let Er1 := fresh "Er1" in let E2 := fresh "E2" in
+  let W2 := fresh "W2" in let G2 := fresh "G2" in let Nx_l := fresh "Nx_l" in let Ny_l := fresh "Ny_l" in
+  let Ex2 := fresh "Ex2" in let Ey2 := fresh "Ey2" in let Hs_r2 := fresh "Hs_r2" in
+  let s3 := fresh "s3" in let Hc2 := fresh "Hc2" in let Er2 := fresh "Er2" in let E3 := fresh "E3" in
+  let W3 := fresh "W3" in let Et3 := fresh "Et3" in let Efin := fresh "Efin" in
+  destruct (keep_nil _ _ _ _ _ E01 G Ex) as (G1 & Ex1);
+  assert (Ey1 : rd s1 y = Some (_, dy)) by (eapply ext_rd; [exact E01 | exact Ey | intros []]);
+  assert (Hs_l1 : scr_ok cl_ _ s1 x t)
+    by (eapply scr_ok_xy; [eapply scr_ok_ext; [exact Hs_l | exact E01] | destruct Hs_l as (_ & A & _); exact A | exact Ntl]);
+  rewrite <- Hdl in Ex1;
+  destruct (Hil s1 x t dx dt W1 G1 Ex1 Et1 (not_eq_sym Ntx) Nt Hs_l1) as (s2 & Hc1 & Er1 & E2 & W2);
+  rw_call Hc1;
+  assert (G2 : good _ s2) by (eapply good_ext_scr; [exact G1 | exact Hs_l1 | exact E2 | exact Nt]);
+  assert (Nx_l : ~ In x (t :: scr_ids cl_))
+    by (intros [Q|I]; [congruence | destruct Hs_l as (_ & A & _); exact (A I)]);
+  assert (Ny_l : ~ In y (t :: scr_ids cl_))
+    by (intros [Q|I]; [congruence | destruct Hs_l as (_ & _ & B & _); exact (B I)]);
+  assert (Ex2 : rd s2 x = Some (o_dom Kr, cl dx))
+    by (rewrite Hdr, <- Hdl; eapply ext_rd; [exact E2 | exact Ex1 | exact Nx_l]);
+  assert (Ey2 : rd s2 y = Some (_, dy)) by (eapply ext_rd; [exact E2 | exact Ey1 | exact Ny_l]);
+  assert (Hs_r2 : scr_ok cr _ s2 x y)
+    by (eapply scr_ok_ext; [eapply scr_ok_ext; [exact Hs_r | exact E01] | exact E2]);
+  destruct (Hir s2 x y dx dy W2 G2 Ex2 Ey2 Nxy Ny Hs_r2) as (s3 & Hc2 & Er2 & E3 & W3);
+  rewrite Hc2;
+  assert (Et3 : rd s3 t = Some (_, cl (Fl dx)))
+    by (eapply ext_rd; [exact E3 | exact Er1 | intros [Q|I]; [congruence | exact (Ntr I)]]);
+  rewrite (do_iadd_clean _ _ _ _ _ _ W3 Er2 Et3);
+  eexists _, _; split; [reflexivity|]; split; [left; reflexivity|];
+  rewrite radd_comm;
+  rewrite ?scr_ids_app; cbn [scr_ids map app fst];
+  splits;
+  [ apply rd_upd_same; eapply rd_lt; exact Er2
+  | eapply ext_trans; [| eapply ext_upd; exact Er2 | intros i I; exact I | intros i _ [<-|[]]; left; reflexivity];
+    eapply ext_trans; [| exact E3 | intros i I; exact I |];
+    [ eapply ext_trans; [exact E01 | exact E2 | intros i [] |];
+      intros i Li [<-|I];
+      [ destruct Hfr as [Hfr'|Hfr']; [lia | right; exact Hfr'] | right; try (right); inl; exact I ]
+    | intros i Li [<-|I]; [left; reflexivity | right; try (right); inr; exact I] ]
+  | apply wf_upd; [exact W3|]; rewrite cl_length, radd_length; [eapply wf_len; eauto|];
+    rewrite (wf_len _ _ _ _ W3 Et3), (wf_len _ _ _ _ W3 Er2); reflexivity ].
+
+Lemma sum_ip (Kl Kr : opsemR) dom ran ro cl_ cr ot od Fl Fr :
+  o_dom Kl = dom -> o_dom Kr = dom -> vec_ok Kl ran ro cl_ Fl -> vec_ok Kr ran ro cr Fr ->
+  NoDup (scr_ids (own_scr ot ran ++ cl_ ++ cr)) ->
+  raw_ip_vec (fun x o => exec_body junk (inst_sum dom ran ot od Kl Kr) (c_ip cls_OperatorSum) x (Some o))
+    dom ran ro (own_scr ot ran ++ cl_ ++ cr) (fun d => radd (Fl d) (Fr d)).
 Proof.
-  intros Hdl Hdr (_ & _ & Hil) (_ & _ & Hir) s x y dx dy W G Ex Ey Nxy Ny.
+  intros Hdl Hdr (_ & _ & Hil) (_ & _ & Hir) ND s x y dx dy W G Ex Ey Nxy Ny Hs.
+  pose proof (scr_ok_r _ _ _ _ _ _ Hs) as Hs_lr.
+  pose proof (scr_ok_l _ _ _ _ _ _ Hs_lr) as Hs_l. pose proof (scr_ok_r _ _ _ _ _ _ Hs_lr) as Hs_r.
+  rewrite !scr_ids_app in ND.
+  assert (Lx : (x < length s)%nat) by (eapply rd_lt; exact Ex).
+  assert (Ly : (y < length s)%nat) by (eapply rd_lt; exact Ey).
   unfold cls_OperatorSum, inst_sum. interp.
-  rewrite alloc_empty_eq. set (t := length s). set (s1 := s ++ [(ran, junkbuf junk t (fst ran))]).
-  assert (Lx : (x < t)%nat) by (eapply rd_lt; exact Ex).
-  assert (Ly : (y < t)%nat) by (eapply rd_lt; exact Ey).
-  assert (W1 : wf_store s1) by (apply wf_alloc; [exact W | apply junkbuf_length]).
-  assert (E01 : ext s s1 []) by apply ext_alloc.
-  destruct (keep_nil _ _ _ _ _ E01 G Ex) as (G1 & Ex1).
-  assert (Ey1 : rd s1 y = Some (ran, dy)) by (eapply ext_rd; [exact E01 | exact Ey | intros []]).
-  assert (Et1 : rd s1 t = Some (ran, junkbuf junk t (fst ran))) by apply rd_app_new.
-  assert (Nt : ~ In t (ro_ids ro)) by (intros I; apply (good_lt _ _ _ G) in I; unfold t in I; lia).
-  rewrite <- Hdl in Ex1.
-  destruct (Hil s1 x t dx _ W1 G1 Ex1 Et1 ltac:(lia) Nt) as (s2 & Hc1 & Er1 & E2 & W2).
-  rewrite Hc1.
-  assert (L1 : length s1 = S t) by (unfold s1; rewrite app_length; cbn; lia).
-  assert (G2 : good ro s2) by (eapply good_ext; [exact G1 | exact E2 | intros i [<-|[]]; exact Nt]).
-  assert (Ex2 : rd s2 x = Some (o_dom Kr, cl dx)).
-  { rewrite Hdr, <- Hdl. eapply ext_rd; [exact E2 | exact Ex1 | notin]. }
-  assert (Ey2 : rd s2 y = Some (ran, dy)) by (eapply ext_rd; [exact E2 | exact Ey1 | notin]).
-  destruct (Hir s2 x y dx dy W2 G2 Ex2 Ey2 Nxy Ny) as (s3 & Hc2 & Er2 & E3 & W3).
-  rewrite Hc2.
-  assert (Et3 : rd s3 t = Some (ran, cl (Fl dx))) by (eapply ext_rd; [exact E3 | exact Er1 | notin]).
-  rewrite (do_iadd_clean _ _ _ _ _ _ W3 Er2 Et3).
-  eexists _, _. split; [reflexivity|]. split; [left; reflexivity|].
-  rewrite radd_comm.
-  eapply ip_finish; [| exact W3 | exact Er2 |].
-  - eapply ext_trans_same; [|exact E3].
-    eapply ext_trans_fresh; [apply ext_nil_any; exact E01 | exact E2 | unfold t; lia].
-  - rewrite radd_length; [eapply wf_len; eauto|].
-    rewrite (wf_len _ _ _ _ W3 Et3), (wf_len _ _ _ _ W3 Er2). reflexivity.
+  destruct ot as [t|].
+  - (* user-supplied temporary *)
+    destruct Hs as (Hex & Hx & Hy & Hro). destruct (Hex t ran (or_introl eq_refl)) as (dt & Et1).
+    cbn [own_scr scr_ids map app fst] in *.
+    apply NoDup_cons_iff in ND as [ND1 ND2].
+    assert (Ntx : t <> x) by (intros ->; apply Hx; left; reflexivity).
+    assert (Nty : t <> y) by (intros ->; apply Hy; left; reflexivity).
+    assert (Nt : ~ In t (ro_ids ro)) by (apply Hro; left; reflexivity).
+    assert (Ntl : ~ In t (scr_ids cl_)) by (intros I; apply ND1; inl; exact I).
+    assert (Ntr : ~ In t (scr_ids cr)) by (intros I; apply ND1; inr; exact I).
+    assert (Hfr : (length s <= t)%nat \/ In t (t :: scr_ids cl_ ++ scr_ids cr)) by (right; left; reflexivity).
+    sum_tail Kl Kr cl_ cr Fl Fr s s x y t dx dy dt W (ext_refl s (@nil nat)) Et1 Ntx Nty Nt Ntl Ntr Hfr
+             G Ex Ey Hs_l Hs_r Hdl Hdr Hil Hir Nxy Ny.
+  - rewrite alloc_empty_eq. set (t := length s). set (s1 := s ++ [(ran, junkbuf junk t (fst ran))]).
+    assert (W1 : wf_store s1) by (apply wf_alloc; [exact W | apply junkbuf_length]).
+    assert (Et1 : rd s1 t = Some (ran, junkbuf junk t (fst ran))) by apply rd_app_new.
+    assert (Ntx : t <> x) by (unfold t; lia).
+    assert (Nty : t <> y) by (unfold t; lia).
+    assert (Nt : ~ In t (ro_ids ro)) by (intros I; apply (good_lt _ _ _ G) in I; unfold t in I; lia).
+    assert (Ntl : ~ In t (scr_ids cl_)) by apply (fresh_notin_scr _ _ _ _ _ Hs_l).
+    assert (Ntr : ~ In t (scr_ids cr)) by apply (fresh_notin_scr _ _ _ _ _ Hs_r).
+    assert (Hfr : (length s <= t)%nat \/ In t (scr_ids cl_ ++ scr_ids cr)) by (left; unfold t; lia).
+    cbn [own_scr scr_ids map app] in *.
+    sum_tail Kl Kr cl_ cr Fl Fr s s1 x y t dx dy (junkbuf junk t (fst ran)) W1 (ext_alloc s (ran, junkbuf junk t (fst ran)))
+             Et1 Ntx Nty Nt Ntl Ntr Hfr G Ex Ey Hs_l Hs_r Hdl Hdr Hil Hir Nxy Ny.
 Qed.
 
 (* ---------------- OperatorVectorSum ---------------- *)
 Definition inst_vec1 (dom ran : space) (v : nat) (K : opsemR) : instR :=
   {| i_dom := dom; i_ran := RSp ran; i_pars := []; i_vecs := [v]; i_owns := []; i_kids := [K] |}.
 
-Lemma vecsum_oop (K : opsemR) dom ran ro F v dv :
-  o_dom K = dom -> vec_ok K ran ro F -> In (v, ran, dv) ro ->
+Lemma vecsum_oop (K : opsemR) dom ran ro c F v dv :
+  o_dom K = dom -> vec_ok K ran ro c F -> In (v, ran, dv) ro ->
   raw_oop_vec (fun x => exec_body junk (inst_vec1 dom ran v K) (c_oop cls_OperatorVectorSum) x None)
     dom ran ro (fun d => radd (F d) dv).
 Proof.
@@ -238,17 +301,17 @@ Proof.
   rewrite (wf_len _ _ _ _ W1 Er), (wf_len _ _ _ _ W1 Ev). reflexivity.
 Qed.
 
-Lemma vecsum_ip (K : opsemR) dom ran ro F v dv :
-  o_dom K = dom -> vec_ok K ran ro F -> In (v, ran, dv) ro ->
+Lemma vecsum_ip (K : opsemR) dom ran ro c F v dv :
+  o_dom K = dom -> vec_ok K ran ro c F -> In (v, ran, dv) ro ->
   raw_ip_vec (fun x o => exec_body junk (inst_vec1 dom ran v K) (c_ip cls_OperatorVectorSum) x (Some o))
-    dom ran ro (fun d => radd (F d) dv).
+    dom ran ro c (fun d => radd (F d) dv).
 Proof.
-  intros Hd (_ & _ & Hip) Iv s x y dx dy W G Ex Ey Nxy Ny.
+  intros Hd (_ & _ & Hip) Iv s x y dx dy W G Ex Ey Nxy Ny Hs.
   unfold cls_OperatorVectorSum, inst_vec1. interp.
   rewrite <- Hd in Ex.
-  destruct (Hip s x y dx dy W G Ex Ey Nxy Ny) as (s1 & Hc & Er & E1 & W1).
+  destruct (Hip s x y dx dy W G Ex Ey Nxy Ny Hs) as (s1 & Hc & Er & E1 & W1).
   rewrite Hc.
-  assert (G1 : good ro s1) by (eapply good_ext; [exact G | exact E1 | intros i [<-|[]]; exact Ny]).
+  assert (G1 : good ro s1) by (eapply good_ext_scr; [exact G | exact Hs | exact E1 | exact Ny]).
   pose proof (G1 _ _ _ Iv) as Ev.
   rewrite (do_iadd_clean _ _ _ _ _ _ W1 Er Ev).
   eexists _, _. split; [reflexivity|]. split; [right; reflexivity|].
@@ -258,12 +321,12 @@ Proof.
 Qed.
 
 (* ---------------- OperatorComp ---------------- *)
-Definition inst_comp (dom ran : space) (Kl Kr : opsemR) : instR :=
-  {| i_dom := dom; i_ran := RSp ran; i_pars := []; i_vecs := []; i_owns := [None]; i_kids := [Kl; Kr] |}.
+Definition inst_comp (dom ran : space) (ot : option nat) (Kl Kr : opsemR) : instR :=
+  {| i_dom := dom; i_ran := RSp ran; i_pars := []; i_vecs := []; i_owns := [ot]; i_kids := [Kl; Kr] |}.
 
-Lemma comp_oop (Kl Kr : opsemR) dom mid ran ro Fl Fr :
-  o_dom Kl = mid -> o_dom Kr = dom -> vec_ok Kl ran ro Fl -> vec_ok Kr mid ro Fr ->
-  raw_oop_vec (fun x => exec_body junk (inst_comp dom ran Kl Kr) (c_oop cls_OperatorComp) x None)
+Lemma comp_oop (Kl Kr : opsemR) dom mid ran ro cl_ cr ot Fl Fr :
+  o_dom Kl = mid -> o_dom Kr = dom -> vec_ok Kl ran ro cl_ Fl -> vec_ok Kr mid ro cr Fr ->
+  raw_oop_vec (fun x => exec_body junk (inst_comp dom ran ot Kl Kr) (c_oop cls_OperatorComp) x None)
     dom ran ro (fun d => Fl (Fr d)).
 Proof.
   intros Hdl Hdr (_ & Hol & _) (_ & Hor & _) s x dx W G Ex.
@@ -281,41 +344,84 @@ Proof.
     pose proof (ext_len _ _ _ E1). destruct Hr2 as [->|Hr2]; [exact Hr1 | right; lia].
 Qed.
 
-Lemma comp_ip (Kl Kr : opsemR) dom mid ran ro Fl Fr :
-  o_dom Kl = mid -> o_dom Kr = dom -> vec_ok Kl ran ro Fl -> vec_ok Kr mid ro Fr ->
-  raw_ip_vec (fun x o => exec_body junk (inst_comp dom ran Kl Kr) (c_ip cls_OperatorComp) x (Some o))
-    dom ran ro (fun d => Fl (Fr d)).
+Ltac comp_tail Kl Kr cl_ cr Fl Fr s s1 x y t dx dy dt W1 E01 Et1 Ntx Nty Nt Ntl Ntr Hfr G Ex Ey Hs_l Hs_r Hdl Hdr Hil Hir Nxy Ny :=
+  let G1 := fresh "G1" in let Ex1 := fresh "Ex1" in let Ey1 := fresh "Ey1" in let Hs_r1 := fresh "Hs_r1" in
+  let s2 := fresh "s2" in let Hc1 := fresh "Hc1" in let Er1 := fresh "Er1" in let E2 := fresh "E2" in
+  let W2 := fresh "W2" in let G2 := fresh "G2" in let Ny_r := fresh "Ny_r" in
+  let Ey2 := fresh "Ey2" in let Hs_l2 := fresh "Hs_l2" in
+  let s3 := fresh "s3" in let Hc2 := fresh "Hc2" in let Er2 := fresh "Er2" in let E3 := fresh "E3" in
+  let W3 := fresh "W3" in
+  destruct (keep_nil _ _ _ _ _ E01 G Ex) as (G1 & Ex1);
+  assert (Ey1 : rd s1 y = Some (_, dy)) by (eapply ext_rd; [exact E01 | exact Ey | intros []]);
+  assert (Hs_r1 : scr_ok cr _ s1 x t)
+    by (eapply scr_ok_xy; [eapply scr_ok_ext; [exact Hs_r | exact E01] | destruct Hs_r as (_ & A & _); exact A | exact Ntr]);
+  rewrite <- Hdr in Ex1;
+  destruct (Hir s1 x t dx dt W1 G1 Ex1 Et1 (not_eq_sym Ntx) Nt Hs_r1) as (s2 & Hc1 & Er1 & E2 & W2);
+  rw_call Hc1;
+  assert (G2 : good _ s2) by (eapply good_ext_scr; [exact G1 | exact Hs_r1 | exact E2 | exact Nt]);
+  assert (Ny_r : ~ In y (t :: scr_ids cr))
+    by (intros [Q|I]; [congruence | destruct Hs_r as (_ & _ & B & _); exact (B I)]);
+  assert (Ey2 : rd s2 y = Some (_, dy)) by (eapply ext_rd; [exact E2 | exact Ey1 | exact Ny_r]);
+  assert (Hs_l2 : scr_ok cl_ _ s2 t y)
+    by (eapply scr_ok_xy; [eapply scr_ok_ext; [eapply scr_ok_ext; [exact Hs_l | exact E01] | exact E2]
+                          | exact Ntl | destruct Hs_l as (_ & _ & B & _); exact B]);
+  rewrite <- Hdl in Er1;
+  destruct (Hil s2 t y (Fr dx) dy W2 G2 Er1 Ey2 Nty Ny Hs_l2) as (s3 & Hc2 & Er2 & E3 & W3);
+  rewrite Hc2;
+  eexists _, _; split; [reflexivity|]; split; [right; reflexivity|];
+  rewrite ?scr_ids_app; cbn [scr_ids map app fst];
+  splits; [exact Er2 | | exact W3];
+  eapply ext_trans; [| exact E3 | intros i I; exact I |];
+  [ eapply ext_trans; [exact E01 | exact E2 | intros i [] |];
+    intros i Li [<-|I];
+    [ destruct Hfr as [Hfr'|Hfr']; [lia | right; exact Hfr'] | right; try (right); inr; exact I ]
+  | intros i Li [<-|I]; [left; reflexivity | right; try (right); inl; exact I] ].
+
+Lemma comp_ip (Kl Kr : opsemR) dom mid ran ro cl_ cr ot Fl Fr :
+  o_dom Kl = mid -> o_dom Kr = dom -> vec_ok Kl ran ro cl_ Fl -> vec_ok Kr mid ro cr Fr ->
+  NoDup (scr_ids (own_scr ot mid ++ cl_ ++ cr)) ->
+  raw_ip_vec (fun x o => exec_body junk (inst_comp dom ran ot Kl Kr) (c_ip cls_OperatorComp) x (Some o))
+    dom ran ro (own_scr ot mid ++ cl_ ++ cr) (fun d => Fl (Fr d)).
 Proof.
-  intros Hdl Hdr (_ & _ & Hil) (Hrr & _ & Hir) s x y dx dy W G Ex Ey Nxy Ny.
-  unfold cls_OperatorComp, inst_comp. interp. rewrite Hrr.
-  rewrite alloc_empty_eq. set (t := length s). set (s1 := s ++ [(mid, junkbuf junk t (fst mid))]).
-  assert (Lx : (x < t)%nat) by (eapply rd_lt; exact Ex).
-  assert (Ly : (y < t)%nat) by (eapply rd_lt; exact Ey).
-  assert (W1 : wf_store s1) by (apply wf_alloc; [exact W | apply junkbuf_length]).
-  assert (E01 : ext s s1 []) by apply ext_alloc.
-  destruct (keep_nil _ _ _ _ _ E01 G Ex) as (G1 & Ex1).
-  assert (Ey1 : rd s1 y = Some (ran, dy)) by (eapply ext_rd; [exact E01 | exact Ey | intros []]).
-  assert (Et1 : rd s1 t = Some (mid, junkbuf junk t (fst mid))) by apply rd_app_new.
-  assert (Nt : ~ In t (ro_ids ro)) by (intros I; apply (good_lt _ _ _ G) in I; unfold t in I; lia).
-  rewrite <- Hdr in Ex1.
-  destruct (Hir s1 x t dx _ W1 G1 Ex1 Et1 ltac:(lia) Nt) as (s2 & Hc1 & Er1 & E2 & W2).
-  rewrite Hc1.
-  assert (G2 : good ro s2) by (eapply good_ext; [exact G1 | exact E2 | intros i [<-|[]]; exact Nt]).
-  assert (Ey2 : rd s2 y = Some (ran, dy)) by (eapply ext_rd; [exact E2 | exact Ey1 | notin]).
-  rewrite <- Hdl in Er1.
-  destruct (Hil s2 t y (Fr dx) dy W2 G2 Er1 Ey2 ltac:(lia) Ny) as (s3 & Hc2 & Er2 & E3 & W3).
-  rewrite Hc2.
-  eexists _, _. split; [reflexivity|]. split; [right; reflexivity|]. splits; auto.
-  eapply ext_trans_same; [|exact E3].
-  eapply ext_trans_fresh; [apply ext_nil_any; exact E01 | exact E2 | unfold t; lia].
+  intros Hdl Hdr (_ & _ & Hil) (Hrr & _ & Hir) ND s x y dx dy W G Ex Ey Nxy Ny Hs.
+  pose proof (scr_ok_r _ _ _ _ _ _ Hs) as Hs_lr.
+  pose proof (scr_ok_l _ _ _ _ _ _ Hs_lr) as Hs_l. pose proof (scr_ok_r _ _ _ _ _ _ Hs_lr) as Hs_r.
+  rewrite !scr_ids_app in ND.
+  assert (Lx : (x < length s)%nat) by (eapply rd_lt; exact Ex).
+  assert (Ly : (y < length s)%nat) by (eapply rd_lt; exact Ey).
+  unfold cls_OperatorComp, inst_comp. interp. rewrite ?Hrr.
+  destruct ot as [t|].
+  - destruct Hs as (Hex & Hx & Hy & Hro). destruct (Hex t mid (or_introl eq_refl)) as (dt & Et1).
+    cbn [own_scr scr_ids map app fst] in *.
+    apply NoDup_cons_iff in ND as [ND1 ND2].
+    assert (Ntx : t <> x) by (intros ->; apply Hx; left; reflexivity).
+    assert (Nty : t <> y) by (intros ->; apply Hy; left; reflexivity).
+    assert (Nt : ~ In t (ro_ids ro)) by (apply Hro; left; reflexivity).
+    assert (Ntl : ~ In t (scr_ids cl_)) by (intros I; apply ND1; inl; exact I).
+    assert (Ntr : ~ In t (scr_ids cr)) by (intros I; apply ND1; inr; exact I).
+    assert (Hfr : (length s <= t)%nat \/ In t (t :: scr_ids cl_ ++ scr_ids cr)) by (right; left; reflexivity).
+    comp_tail Kl Kr cl_ cr Fl Fr s s x y t dx dy dt W (ext_refl s (@nil nat)) Et1 Ntx Nty Nt Ntl Ntr Hfr
+              G Ex Ey Hs_l Hs_r Hdl Hdr Hil Hir Nxy Ny.
+  - rewrite alloc_empty_eq. set (t := length s). set (s1 := s ++ [(mid, junkbuf junk t (fst mid))]).
+    assert (W1 : wf_store s1) by (apply wf_alloc; [exact W | apply junkbuf_length]).
+    assert (Et1 : rd s1 t = Some (mid, junkbuf junk t (fst mid))) by apply rd_app_new.
+    assert (Ntx : t <> x) by (unfold t; lia).
+    assert (Nty : t <> y) by (unfold t; lia).
+    assert (Nt : ~ In t (ro_ids ro)) by (intros I; apply (good_lt _ _ _ G) in I; unfold t in I; lia).
+    assert (Ntl : ~ In t (scr_ids cl_)) by apply (fresh_notin_scr _ _ _ _ _ Hs_l).
+    assert (Ntr : ~ In t (scr_ids cr)) by apply (fresh_notin_scr _ _ _ _ _ Hs_r).
+    assert (Hfr : (length s <= t)%nat \/ In t (scr_ids cl_ ++ scr_ids cr)) by (left; unfold t; lia).
+    cbn [own_scr scr_ids map app] in *.
+    comp_tail Kl Kr cl_ cr Fl Fr s s1 x y t dx dy (junkbuf junk t (fst mid)) W1 (ext_alloc s (mid, junkbuf junk t (fst mid)))
+              Et1 Ntx Nty Nt Ntl Ntr Hfr G Ex Ey Hs_l Hs_r Hdl Hdr Hil Hir Nxy Ny.
 Qed.
 
 (* ---------------- OperatorPointwiseProduct ---------------- *)
 Definition inst_pprod (dom ran : space) (Kl Kr : opsemR) : instR :=
   {| i_dom := dom; i_ran := RSp ran; i_pars := []; i_vecs := []; i_owns := []; i_kids := [Kl; Kr] |}.
 
-Lemma pprod_oop (Kl Kr : opsemR) dom ran ro Fl Fr :
-  o_dom Kl = dom -> o_dom Kr = dom -> vec_ok Kl ran ro Fl -> vec_ok Kr ran ro Fr ->
+Lemma pprod_oop (Kl Kr : opsemR) dom ran ro cl_ cr Fl Fr :
+  o_dom Kl = dom -> o_dom Kr = dom -> vec_ok Kl ran ro cl_ Fl -> vec_ok Kr ran ro cr Fr ->
   raw_oop_vec (fun x => exec_body junk (inst_pprod dom ran Kl Kr) (c_oop cls_OperatorPointwiseProduct) x None)
     dom ran ro (fun d => rmul (Fl d) (Fr d)).
 Proof.
@@ -336,12 +442,14 @@ Proof.
     rewrite (wf_len _ _ _ _ W2 Er1'), (wf_len _ _ _ _ W2 Er2). reflexivity.
 Qed.
 
-Lemma pprod_ip (Kl Kr : opsemR) dom ran ro Fl Fr :
-  o_dom Kl = dom -> o_dom Kr = dom -> vec_ok Kl ran ro Fl -> vec_ok Kr ran ro Fr ->
+Lemma pprod_ip (Kl Kr : opsemR) dom ran ro cl_ cr Fl Fr :
+  o_dom Kl = dom -> o_dom Kr = dom -> vec_ok Kl ran ro cl_ Fl -> vec_ok Kr ran ro cr Fr ->
+  (forall i, In i (scr_ids cl_) -> ~ In i (scr_ids cr)) ->
   raw_ip_vec (fun x o => exec_body junk (inst_pprod dom ran Kl Kr) (c_ip cls_OperatorPointwiseProduct) x (Some o))
-    dom ran ro (fun d => rmul (Fl d) (Fr d)).
+    dom ran ro (cl_ ++ cr) (fun d => rmul (Fl d) (Fr d)).
 Proof.
-  intros Hdl Hdr (_ & _ & Hil) (Hrr & _ & Hir) s x y dx dy W G Ex Ey Nxy Ny.
+  intros Hdl Hdr (_ & _ & Hil) (Hrr & _ & Hir) ND s x y dx dy W G Ex Ey Nxy Ny Hs.
+  pose proof (scr_ok_l _ _ _ _ _ _ Hs) as Hs_l. pose proof (scr_ok_r _ _ _ _ _ _ Hs) as Hs_r.
   unfold cls_OperatorPointwiseProduct, inst_pprod. interp. rewrite Hrr.
   rewrite alloc_empty_eq. set (t := length s). set (s1 := s ++ [(ran, junkbuf junk t (fst ran))]).
   assert (Lx : (x < t)%nat) by (eapply rd_lt; exact Ex).
@@ -352,32 +460,48 @@ Proof.
   assert (Ey1 : rd s1 y = Some (ran, dy)) by (eapply ext_rd; [exact E01 | exact Ey | intros []]).
   assert (Et1 : rd s1 t = Some (ran, junkbuf junk t (fst ran))) by apply rd_app_new.
   assert (Nt : ~ In t (ro_ids ro)) by (intros I; apply (good_lt _ _ _ G) in I; unfold t in I; lia).
+  assert (Ntl : ~ In t (scr_ids cl_)) by apply (fresh_notin_scr _ _ _ _ _ Hs_l).
+  assert (Ntr : ~ In t (scr_ids cr)) by apply (fresh_notin_scr _ _ _ _ _ Hs_r).
+  assert (Hs_l1 : scr_ok cl_ ro s1 x t).
+  { eapply scr_ok_xy; [eapply scr_ok_ext; [exact Hs_l | exact E01] | destruct Hs_l as (_ & A & _); exact A | exact Ntl]. }
   rewrite <- Hdl in Ex1.
-  destruct (Hil s1 x t dx _ W1 G1 Ex1 Et1 ltac:(lia) Nt) as (s2 & Hc1 & Er1 & E2 & W2).
-  rewrite Hc1.
-  assert (G2 : good ro s2) by (eapply good_ext; [exact G1 | exact E2 | intros i [<-|[]]; exact Nt]).
+  destruct (Hil s1 x t dx _ W1 G1 Ex1 Et1 ltac:(lia) Nt Hs_l1) as (s2 & Hc1 & Er1 & E2 & W2).
+  rw_call Hc1.
+  assert (G2 : good ro s2) by (eapply good_ext_scr; [exact G1 | exact Hs_l1 | exact E2 | exact Nt]).
+  assert (Nx_l : ~ In x (t :: scr_ids cl_)).
+  { intros [Q|I]; [lia | destruct Hs_l as (_ & A & _); exact (A I)]. }
+  assert (Ny_l : ~ In y (t :: scr_ids cl_)).
+  { intros [Q|I]; [lia | destruct Hs_l as (_ & _ & B & _); exact (B I)]. }
   assert (Ex2 : rd s2 x = Some (o_dom Kr, cl dx)).
-  { rewrite Hdr, <- Hdl. eapply ext_rd; [exact E2 | exact Ex1 | notin]. }
-  assert (Ey2 : rd s2 y = Some (ran, dy)) by (eapply ext_rd; [exact E2 | exact Ey1 | notin]).
-  destruct (Hir s2 x y dx dy W2 G2 Ex2 Ey2 Nxy Ny) as (s3 & Hc2 & Er2 & E3 & W3).
+  { rewrite Hdr, <- Hdl. eapply ext_rd; [exact E2 | exact Ex1 | exact Nx_l]. }
+  assert (Ey2 : rd s2 y = Some (ran, dy)) by (eapply ext_rd; [exact E2 | exact Ey1 | exact Ny_l]).
+  assert (Hs_r2 : scr_ok cr ro s2 x y).
+  { eapply scr_ok_ext; [eapply scr_ok_ext; [exact Hs_r | exact E01] | exact E2]. }
+  destruct (Hir s2 x y dx dy W2 G2 Ex2 Ey2 Nxy Ny Hs_r2) as (s3 & Hc2 & Er2 & E3 & W3).
   rewrite Hc2.
-  assert (Et3 : rd s3 t = Some (ran, cl (Fl dx))) by (eapply ext_rd; [exact E3 | exact Er1 | notin]).
+  assert (Et3 : rd s3 t = Some (ran, cl (Fl dx))).
+  { eapply ext_rd; [exact E3 | exact Er1 | intros [Q|I]; [lia | exact (Ntr I)]]. }
   rewrite (do_multiply_clean _ _ _ _ _ _ _ _ Et3 Er2 Er2).
   eexists _, _. split; [reflexivity|]. split; [left; reflexivity|].
-  eapply ip_finish; [| exact W3 | exact Er2 |].
-  - eapply ext_trans_same; [|exact E3].
-    eapply ext_trans_fresh; [apply ext_nil_any; exact E01 | exact E2 | unfold t; lia].
-  - rewrite rmul_length; [eapply wf_len; eauto|].
+  rewrite scr_ids_app.
+  splits.
+  - apply rd_upd_same. eapply rd_lt; exact Er2.
+  - eapply ext_trans; [| eapply ext_upd; exact Er2 | intros i I; exact I | intros i _ [<-|[]]; left; reflexivity].
+    eapply ext_trans; [| exact E3 | intros i I; exact I |].
+    + eapply ext_trans; [exact E01 | exact E2 | intros i [] |].
+      intros i Li [<-|I]; [unfold t in Li; lia | right; inl; exact I].
+    + intros i Li [<-|I]; [left; reflexivity | right; inr; exact I].
+  - apply wf_upd; [exact W3|]. rewrite cl_length, rmul_length; [eapply wf_len; eauto|].
     rewrite (wf_len _ _ _ _ W3 Et3), (wf_len _ _ _ _ W3 Er2). reflexivity.
 Qed.
 
 (* ---------------- OperatorRightScalarMult ---------------- *)
-Definition inst_rscal (dom ran : space) (a : R) (K : opsemR) : instR :=
-  {| i_dom := dom; i_ran := RSp ran; i_pars := [Some a]; i_vecs := []; i_owns := [None]; i_kids := [K] |}.
+Definition inst_rscal (dom ran : space) (a : R) (ot : option nat) (K : opsemR) : instR :=
+  {| i_dom := dom; i_ran := RSp ran; i_pars := [Some a]; i_vecs := []; i_owns := [ot]; i_kids := [K] |}.
 
-Lemma rscal_oop (K : opsemR) dom ran ro F a :
-  o_dom K = dom -> vec_ok K ran ro F ->
-  raw_oop_vec (fun x => exec_body junk (inst_rscal dom ran a K) (c_oop cls_OperatorRightScalarMult) x None)
+Lemma rscal_oop (K : opsemR) dom ran ro c ot F a :
+  o_dom K = dom -> vec_ok K ran ro c F ->
+  raw_oop_vec (fun x => exec_body junk (inst_rscal dom ran a ot K) (c_oop cls_OperatorRightScalarMult) x None)
     dom ran ro (fun d => F (rscal a d)).
 Proof.
   intros Hd (_ & Hoop & _) s x dx W G Ex.
@@ -397,30 +521,60 @@ Proof.
     pose proof (ext_len _ _ _ E01). destruct Hr as [->|Hr]; unfold t; lia.
 Qed.
 
-Lemma rscal_ip (K : opsemR) dom ran ro F a :
-  o_dom K = dom -> vec_ok K ran ro F ->
-  raw_ip_vec (fun x o => exec_body junk (inst_rscal dom ran a K) (c_ip cls_OperatorRightScalarMult) x (Some o))
-    dom ran ro (fun d => F (rscal a d)).
+Lemma rscal_ip (K : opsemR) dom ran ro c ot F a :
+  o_dom K = dom -> vec_ok K ran ro c F ->
+  NoDup (scr_ids (own_scr ot dom ++ c)) ->
+  raw_ip_vec (fun x o => exec_body junk (inst_rscal dom ran a ot K) (c_ip cls_OperatorRightScalarMult) x (Some o))
+    dom ran ro (own_scr ot dom ++ c) (fun d => F (rscal a d)).
 Proof.
-  intros Hd (_ & _ & Hip) s x y dx dy W G Ex Ey Nxy Ny.
+  intros Hd (_ & _ & Hip) ND s x y dx dy W G Ex Ey Nxy Ny Hs.
+  pose proof (scr_ok_r _ _ _ _ _ _ Hs) as Hs_c.
+  rewrite scr_ids_app in ND.
+  assert (Lx : (x < length s)%nat) by (eapply rd_lt; exact Ex).
+  assert (Ly : (y < length s)%nat) by (eapply rd_lt; exact Ey).
+  assert (Lr : length (rscal a dx) = fst dom) by (rewrite rscal_length; eapply wf_len; eauto).
   unfold cls_OperatorRightScalarMult, inst_rscal. interp.
-  rewrite alloc_empty_eq. set (t := length s). set (s0 := s ++ [(dom, junkbuf junk t (fst dom))]).
-  assert (Lx : (x < t)%nat) by (eapply rd_lt; exact Ex).
-  assert (Ly : (y < t)%nat) by (eapply rd_lt; exact Ey).
-  assert (W0 : wf_store s0) by (apply wf_alloc; [exact W | apply junkbuf_length]).
-  assert (Ex0 : rd s0 x = Some (dom, cl dx)) by (unfold s0; rewrite rd_app_old; assumption).
-  rewrite (do_lincomb1_clean _ _ _ _ _ _ _ W0 Ex0 (rd_app_new _ _)).
-  unfold s0, t. rewrite upd_app_last. fold t. set (s1 := s ++ [(dom, cl (rscal a dx))]).
-  assert (W1 : wf_store s1).
-  { apply wf_alloc; [exact W | rewrite cl_length, rscal_length; eapply wf_len; eauto]. }
-  assert (E01 : ext s s1 []) by apply ext_alloc.
-  destruct (keep_nil _ _ _ _ _ E01 G Ex) as (G1 & _).
-  assert (Ey1 : rd s1 y = Some (ran, dy)) by (eapply ext_rd; [exact E01 | exact Ey | intros []]).
-  assert (Et1 : rd s1 t = Some (o_dom K, cl (rscal a dx))) by (rewrite Hd; apply rd_app_new).
-  destruct (Hip s1 t y _ dy W1 G1 Et1 Ey1 ltac:(lia) Ny) as (s2 & Hc & Er & E2 & W2).
-  rw_call Hc.
-  eexists _, _. split; [reflexivity|]. split; [left; reflexivity|]. splits; auto.
-  eapply ext_trans_same; [apply ext_nil_any; exact E01 | exact E2].
+  destruct ot as [t|].
+  - (* user-supplied temporary: written in place *)
+    destruct Hs as (Hex & Hx & Hy & Hro). destruct (Hex t dom (or_introl eq_refl)) as (dt & Et).
+    cbn [own_scr scr_ids map app fst] in *.
+    apply NoDup_cons_iff in ND as [ND1 ND2].
+    assert (Ntx : t <> x) by (intros ->; apply Hx; left; reflexivity).
+    assert (Nty : t <> y) by (intros ->; apply Hy; left; reflexivity).
+    assert (Nt : ~ In t (ro_ids ro)) by (apply Hro; left; reflexivity).
+    rewrite (do_lincomb1_clean _ _ _ _ _ _ _ W Ex Et).
+    set (s1 := upd s t (dom, cl (rscal a dx))).
+    assert (E01 : ext s s1 [t]) by (eapply ext_upd; exact Et).
+    assert (W1 : wf_store s1) by (apply wf_upd; [exact W | rewrite cl_length; exact Lr]).
+    assert (G1 : good ro s1) by (eapply good_ext; [exact G | exact E01 | intros i [<-|[]]; exact Nt]).
+    assert (Ey1 : rd s1 y = Some (ran, dy)) by (eapply ext_rd; [exact E01 | exact Ey | intros [Q|[]]; congruence]).
+    assert (Et1 : rd s1 t = Some (o_dom K, cl (rscal a dx))).
+    { rewrite Hd. apply rd_upd_same. eapply rd_lt; exact Et. }
+    assert (Hs1 : scr_ok c ro s1 t y).
+    { eapply scr_ok_xy; [eapply scr_ok_ext; [exact Hs_c | exact E01] | exact ND1 | destruct Hs_c as (_ & _ & B & _); exact B]. }
+    destruct (Hip s1 t y _ dy W1 G1 Et1 Ey1 Nty Ny Hs1) as (s2 & Hc & Er & E2 & W2).
+    rw_call Hc.
+    eexists _, _. split; [reflexivity|]. split; [left; reflexivity|]. splits; auto.
+    eapply ext_trans; [exact E01 | exact E2 | intros i [<-|[]]; right; left; reflexivity |].
+    intros i Li [<-|I]; [left; reflexivity | right; right; exact I].
+  - rewrite alloc_empty_eq. set (t := length s). set (s0 := s ++ [(dom, junkbuf junk t (fst dom))]).
+    assert (W0 : wf_store s0) by (apply wf_alloc; [exact W | apply junkbuf_length]).
+    assert (Ex0 : rd s0 x = Some (dom, cl dx)) by (unfold s0; rewrite rd_app_old; assumption).
+    rewrite (do_lincomb1_clean _ _ _ _ _ _ _ W0 Ex0 (rd_app_new _ _)).
+    unfold s0, t. rewrite upd_app_last. fold t. set (s1 := s ++ [(dom, cl (rscal a dx))]).
+    assert (W1 : wf_store s1) by (apply wf_alloc; [exact W | rewrite cl_length; exact Lr]).
+    assert (E01 : ext s s1 []) by apply ext_alloc.
+    destruct (keep_nil _ _ _ _ _ E01 G Ex) as (G1 & _).
+    assert (Ey1 : rd s1 y = Some (ran, dy)) by (eapply ext_rd; [exact E01 | exact Ey | intros []]).
+    assert (Et1 : rd s1 t = Some (o_dom K, cl (rscal a dx))) by (rewrite Hd; apply rd_app_new).
+    cbn [own_scr scr_ids map app] in *.
+    assert (Hs1 : scr_ok c ro s1 t y).
+    { eapply scr_ok_xy; [eapply scr_ok_ext; [exact Hs_c | exact E01] | apply (fresh_notin_scr _ _ _ _ _ Hs_c)
+                        | destruct Hs_c as (_ & _ & B & _); exact B]. }
+    destruct (Hip s1 t y _ dy W1 G1 Et1 Ey1 ltac:(unfold t; lia) Ny Hs1) as (s2 & Hc & Er & E2 & W2).
+    rw_call Hc.
+    eexists _, _. split; [reflexivity|]. split; [left; reflexivity|]. splits; auto.
+    eapply ext_trans; [exact E01 | exact E2 | intros i [] | intros i _ I; exact I].
 Qed.
 
 (* ---------------- FunctionalLeftVectorMult ---------------- *)
@@ -444,9 +598,9 @@ Qed.
 Lemma flvec_ip (K : opsemR) dom ran ro f v dv :
   o_dom K = dom -> sc_ok K ro f -> In (v, ran, dv) ro ->
   raw_ip_vec (fun x o => exec_body junk (inst_vec1 dom ran v K) (c_ip cls_FunctionalLeftVectorMult) x (Some o))
-    dom ran ro (fun d => rscal (f d) dv).
+    dom ran ro [] (fun d => rscal (f d) dv).
 Proof.
-  intros Hd (_ & Hsc) Iv s x y dx dy W G Ex Ey Nxy Ny.
+  intros Hd (_ & Hsc) Iv s x y dx dy W G Ex Ey Nxy Ny _.
   unfold cls_FunctionalLeftVectorMult, inst_vec1. interp.
   rewrite <- Hd in Ex.
   destruct (Hsc s x dx W G Ex) as (s1 & Hc & E1 & W1).
@@ -461,8 +615,8 @@ Proof.
 Qed.
 
 (* ---------------- OperatorLeftVectorMult ---------------- *)
-Lemma lvec_oop (K : opsemR) dom ran ro F v dv :
-  o_dom K = dom -> vec_ok K ran ro F -> In (v, ran, dv) ro ->
+Lemma lvec_oop (K : opsemR) dom ran ro c F v dv :
+  o_dom K = dom -> vec_ok K ran ro c F -> In (v, ran, dv) ro ->
   raw_oop_vec (fun x => exec_body junk (inst_vec1 dom ran v K) (c_oop cls_OperatorLeftVectorMult) x None)
     dom ran ro (fun d => rmul dv (F d)).
 Proof.
@@ -480,17 +634,17 @@ Proof.
   rewrite (wf_len _ _ _ _ W1 Er), (wf_len _ _ _ _ W1 Ev). reflexivity.
 Qed.
 
-Lemma lvec_ip (K : opsemR) dom ran ro F v dv :
-  o_dom K = dom -> vec_ok K ran ro F -> In (v, ran, dv) ro ->
+Lemma lvec_ip (K : opsemR) dom ran ro c F v dv :
+  o_dom K = dom -> vec_ok K ran ro c F -> In (v, ran, dv) ro ->
   raw_ip_vec (fun x o => exec_body junk (inst_vec1 dom ran v K) (c_ip cls_OperatorLeftVectorMult) x (Some o))
-    dom ran ro (fun d => rmul dv (F d)).
+    dom ran ro c (fun d => rmul dv (F d)).
 Proof.
-  intros Hd (_ & _ & Hip) Iv s x y dx dy W G Ex Ey Nxy Ny.
+  intros Hd (_ & _ & Hip) Iv s x y dx dy W G Ex Ey Nxy Ny Hs.
   unfold cls_OperatorLeftVectorMult, inst_vec1. interp.
   rewrite <- Hd in Ex.
-  destruct (Hip s x y dx dy W G Ex Ey Nxy Ny) as (s1 & Hc & Er & E1 & W1).
+  destruct (Hip s x y dx dy W G Ex Ey Nxy Ny Hs) as (s1 & Hc & Er & E1 & W1).
   rewrite Hc.
-  assert (G1 : good ro s1) by (eapply good_ext; [exact G | exact E1 | intros i [<-|[]]; exact Ny]).
+  assert (G1 : good ro s1) by (eapply good_ext_scr; [exact G | exact Hs | exact E1 | exact Ny]).
   pose proof (G1 _ _ _ Iv) as Ev.
   rewrite (do_multiply_clean _ _ _ _ _ _ _ _ Ev Er Er).
   eexists _, _. split; [reflexivity|]. split; [left; reflexivity|].
@@ -500,8 +654,8 @@ Proof.
 Qed.
 
 (* ---------------- OperatorRightVectorMult ---------------- *)
-Lemma rvec_oop (K : opsemR) dom ran ro F v dv :
-  o_dom K = dom -> vec_ok K ran ro F -> In (v, dom, dv) ro ->
+Lemma rvec_oop (K : opsemR) dom ran ro c F v dv :
+  o_dom K = dom -> vec_ok K ran ro c F -> In (v, dom, dv) ro ->
   raw_oop_vec (fun x => exec_body junk (inst_vec1 dom ran v K) (c_oop cls_OperatorRightVectorMult) x None)
     dom ran ro (fun d => F (rmul d dv)).
 Proof.
@@ -524,12 +678,12 @@ Proof.
     pose proof (ext_len _ _ _ E01). destruct Hr as [->|Hr]; unfold t; lia.
 Qed.
 
-Lemma rvec_ip (K : opsemR) dom ran ro F v dv :
-  o_dom K = dom -> vec_ok K ran ro F -> In (v, dom, dv) ro ->
+Lemma rvec_ip (K : opsemR) dom ran ro c F v dv :
+  o_dom K = dom -> vec_ok K ran ro c F -> In (v, dom, dv) ro ->
   raw_ip_vec (fun x o => exec_body junk (inst_vec1 dom ran v K) (c_ip cls_OperatorRightVectorMult) x (Some o))
-    dom ran ro (fun d => F (rmul d dv)).
+    dom ran ro c (fun d => F (rmul d dv)).
 Proof.
-  intros Hd (_ & _ & Hip) Iv s x y dx dy W G Ex Ey Nxy Ny.
+  intros Hd (_ & _ & Hip) Iv s x y dx dy W G Ex Ey Nxy Ny Hs.
   unfold cls_OperatorRightVectorMult, inst_vec1. interp.
   rewrite alloc_empty_eq. set (t := length s). set (s0 := s ++ [(dom, junkbuf junk t (fst dom))]).
   assert (Lx : (x < t)%nat) by (eapply rd_lt; exact Ex).
@@ -551,10 +705,13 @@ Proof.
   destruct (keep_nil _ _ _ _ _ E01 G Ex) as (G1 & _).
   assert (Ey1 : rd s1 y = Some (ran, dy)) by (eapply ext_rd; [exact E01 | exact Ey | intros []]).
   assert (Et1 : rd s1 t = Some (o_dom K, cl (rmul dx dv))) by (rewrite Hd; apply rd_app_new).
-  destruct (Hip s1 t y _ dy W1 G1 Et1 Ey1 ltac:(lia) Ny) as (s2 & Hc & Er & E2 & W2).
+  assert (Hs1 : scr_ok c ro s1 t y).
+  { eapply scr_ok_xy; [eapply scr_ok_ext; [exact Hs | exact E01] | apply (fresh_notin_scr _ _ _ _ _ Hs)
+                      | destruct Hs as (_ & _ & B & _); exact B]. }
+  destruct (Hip s1 t y _ dy W1 G1 Et1 Ey1 ltac:(lia) Ny Hs1) as (s2 & Hc & Er & E2 & W2).
   rw_call Hc.
   eexists _, _. split; [reflexivity|]. split; [left; reflexivity|]. splits; auto.
-  eapply ext_trans_same; [apply ext_nil_any; exact E01 | exact E2].
+  eapply ext_trans; [exact E01 | exact E2 | intros i [] | intros i _ I; exact I].
 Qed.
 
 (* ================= translated leaf classes of default_ops.py ================= *)
@@ -573,9 +730,9 @@ Proof.
 Qed.
 Lemma scaling_ip sp ro a :
   raw_ip_vec (fun x o => exec_body junk (inst_leaf sp sp [Some a] []) (c_ip cls_ScalingOperator) x (Some o))
-    sp sp ro (fun d => rscal a d).
+    sp sp ro [] (fun d => rscal a d).
 Proof.
-  intros s x y dx dy W G Ex Ey Nxy Ny. unfold cls_ScalingOperator, inst_leaf. interp.
+  intros s x y dx dy W G Ex Ey Nxy Ny _. unfold cls_ScalingOperator, inst_leaf. interp.
   rewrite (do_lincomb1_clean _ _ _ _ _ _ _ W Ex Ey).
   eexists _, _. split; [reflexivity|]. split; [right; reflexivity|].
   eapply ip_finish; [apply ext_refl | exact W | exact Ey |]. rewrite rscal_length. eapply wf_len; eauto.
@@ -598,9 +755,9 @@ Proof.
 Qed.
 Lemma zero_same_ip sp ro :
   raw_ip_vec (fun x o => exec_body junk (inst_leaf sp sp [] []) (c_ip cls_ZeroOperator_same) x (Some o))
-    sp sp ro (fun d => rscal (0 / 1) d).
+    sp sp ro [] (fun d => rscal (0 / 1) d).
 Proof.
-  intros s x y dx dy W G Ex Ey Nxy Ny. unfold cls_ZeroOperator_same, inst_leaf. interp. rewrite of_Q_zero.
+  intros s x y dx dy W G Ex Ey Nxy Ny _. unfold cls_ZeroOperator_same, inst_leaf. interp. rewrite of_Q_zero.
   rewrite (do_lincomb1_clean _ _ _ _ _ _ _ W Ex Ey).
   eexists _, _. split; [reflexivity|]. split; [right; reflexivity|].
   eapply ip_finish; [apply ext_refl | exact W | exact Ey |]. rewrite rscal_length. eapply wf_len; eauto.
@@ -617,9 +774,9 @@ Proof.
 Qed.
 Lemma zero_diff_ip dom ran ro :
   raw_ip_vec (fun x o => exec_body junk (inst_leaf dom ran [] []) (c_ip cls_ZeroOperator_diff) x (Some o))
-    dom ran ro (fun _ => repeat 0%R (fst ran)).
+    dom ran ro [] (fun _ => repeat 0%R (fst ran)).
 Proof.
-  intros s x y dx dy W G Ex Ey Nxy Ny. unfold cls_ZeroOperator_diff, inst_leaf. interp. cbn [alloc].
+  intros s x y dx dy W G Ex Ey Nxy Ny _. unfold cls_ZeroOperator_diff, inst_leaf. interp. cbn [alloc].
   rewrite zeros_cl. set (t := length s). set (s1 := s ++ [(ran, cl (repeat 0%R (fst ran)))]).
   assert (Ly : (y < t)%nat) by (eapply rd_lt; exact Ey).
   assert (W1 : wf_store s1) by (apply wf_alloc; [exact W | rewrite cl_length; apply repeat_length]).
@@ -649,9 +806,9 @@ Qed.
 Lemma constant_ip dom ran ro v dv :
   In (v, ran, dv) ro ->
   raw_ip_vec (fun x o => exec_body junk (inst_leaf dom ran [] [v]) (c_ip cls_ConstantOperator) x (Some o))
-    dom ran ro (fun _ => dv).
+    dom ran ro [] (fun _ => dv).
 Proof.
-  intros Iv s x y dx dy W G Ex Ey Nxy Ny. unfold cls_ConstantOperator, inst_leaf. interp.
+  intros Iv s x y dx dy W G Ex Ey Nxy Ny _. unfold cls_ConstantOperator, inst_leaf. interp.
   pose proof (G _ _ _ Iv) as Ev.
   rewrite (do_assign_clean _ _ _ _ _ _ W Ev Ey).
   eexists _, _. split; [reflexivity|]. split; [left; reflexivity|].
@@ -675,9 +832,9 @@ Qed.
 Lemma multiply_ip sp ro v dv :
   In (v, sp, dv) ro ->
   raw_ip_vec (fun x o => exec_body junk (inst_leaf sp sp [] [v]) (c_ip cls_MultiplyOperator) x (Some o))
-    sp sp ro (fun d => rmul dv d).
+    sp sp ro [] (fun d => rmul dv d).
 Proof.
-  intros Iv s x y dx dy W G Ex Ey Nxy Ny. unfold cls_MultiplyOperator, inst_leaf. interp.
+  intros Iv s x y dx dy W G Ex Ey Nxy Ny _. unfold cls_MultiplyOperator, inst_leaf. interp.
   pose proof (G _ _ _ Iv) as Ev.
   rewrite (new_mul_clean _ _ _ _ _ _ Ev Ex). rewrite rmul_comm.
   set (t := length s). set (s1 := s ++ [(sp, cl (rmul dv dx))]).
@@ -746,9 +903,9 @@ Proof.
 Qed.
 Lemma leaf_ip k f al dom ran ro F :
   pf_clean f dom ran F ->
-  raw_ip_vec (leaf_raw_ip {| lf_kind := k; lf_fun := f; lf_alias := al; lf_quirk := QNone |}) dom ran ro F.
+  raw_ip_vec (leaf_raw_ip {| lf_kind := k; lf_fun := f; lf_alias := al; lf_quirk := QNone |}) dom ran ro [] F.
 Proof.
-  intros (Hs & Hf) s x y dx dy W G Ex Ey Nxy Ny. unfold leaf_raw_ip. cbn [lf_quirk lf_fun lf_alias elem_id].
+  intros (Hs & Hf) s x y dx dy W G Ex Ey Nxy Ny _. unfold leaf_raw_ip. cbn [lf_quirk lf_fun lf_alias elem_id].
   rewrite (bind_Ok _ _ _ _ _ (eq_refl : ret x s = Ok x s)).
   rewrite (bind_Ok _ _ _ _ _ (eq_refl : ret y s = Ok y s)).
   rewrite (bind_Ok _ _ _ _ _ (data_of_eq _ _ _ _ Ex)).
@@ -764,9 +921,9 @@ Qed.
 Definition inst_f (dom : space) (pars : list VR) (vecs : list nat) (owns : list (option nat)) (kids : list opsemR) : instR :=
   {| i_dom := dom; i_ran := RField; i_pars := pars; i_vecs := vecs; i_owns := owns; i_kids := kids |}.
 
-Lemma fsum_sc (Kl Kr : opsemR) dom ro fl fr :
+Lemma fsum_sc (Kl Kr : opsemR) dom ro ot od fl fr :
   o_dom Kl = dom -> o_dom Kr = dom -> sc_ok Kl ro fl -> sc_ok Kr ro fr ->
-  raw_oop_sc (fun x => exec_body junk (inst_f dom [] [] [None; None] [Kl; Kr]) (c_oop cls_OperatorSum) x None)
+  raw_oop_sc (fun x => exec_body junk (inst_f dom [] [] [ot; od] [Kl; Kr]) (c_oop cls_OperatorSum) x None)
     dom ro (fun d => (fl d + fr d)%R).
 Proof.
   intros Hdl Hdr (_ & Hl) (_ & Hr) s x dx W G Ex.
@@ -801,9 +958,9 @@ Proof.
   destruct (Hf s x dx W G Ex) as (s1 & Hc1 & E1 & W1). rewrite Hc1.
   exists s1. splits; [reflexivity | exact E1 | exact W1].
 Qed.
-Lemma fcomp_sc (Kl Kr : opsemR) dom mid ro f Fr :
-  o_dom Kl = mid -> o_dom Kr = dom -> sc_ok Kl ro f -> vec_ok Kr mid ro Fr ->
-  raw_oop_sc (fun x => exec_body junk (inst_f dom [] [] [None] [Kl; Kr]) (c_oop cls_OperatorComp) x None)
+Lemma fcomp_sc (Kl Kr : opsemR) dom mid ro cr ot f Fr :
+  o_dom Kl = mid -> o_dom Kr = dom -> sc_ok Kl ro f -> vec_ok Kr mid ro cr Fr ->
+  raw_oop_sc (fun x => exec_body junk (inst_f dom [] [] [ot] [Kl; Kr]) (c_oop cls_OperatorComp) x None)
     dom ro (fun d => f (Fr d)).
 Proof.
   intros Hdl Hdr (_ & Hf) (_ & Hor & _) s x dx W G Ex.
@@ -815,9 +972,9 @@ Proof.
   destruct (Hf s1 r1 (Fr dx) W1 G1 Er1) as (s2 & Hc2 & E2 & W2). rewrite Hc2.
   exists s2. splits; [reflexivity | eapply ext_trans_same; eassumption | exact W2].
 Qed.
-Lemma frscal_sc (K : opsemR) dom ro f a :
+Lemma frscal_sc (K : opsemR) dom ro ot f a :
   o_dom K = dom -> sc_ok K ro f ->
-  raw_oop_sc (fun x => exec_body junk (inst_f dom [Some a] [] [None] [K]) (c_oop cls_OperatorRightScalarMult) x None)
+  raw_oop_sc (fun x => exec_body junk (inst_f dom [Some a] [] [ot] [K]) (c_oop cls_OperatorRightScalarMult) x None)
     dom ro (fun d => f (rscal a d)).
 Proof.
   intros Hd (_ & Hf) s x dx W G Ex.
